@@ -72,7 +72,7 @@ def batches(tier):
 
 
 # ------------------------------------------------------------------------------------------------
-FNS = ["sin", "cos", "tanh", "exp", "atan"]
+FNS = ["sin", "cos", "tanh", "exp", "atan", "sinh", "cosh", "Abs"]
 
 
 def gen_expr(r, depth, frees, meas, scale=1.0):
@@ -92,7 +92,13 @@ def gen_expr(r, depth, frees, meas, scale=1.0):
         return {"mul": [gen_expr(r, depth - 1, frees, meas, scale), gen_expr(r, depth - 1, frees, meas, scale)]}
     if x < 0.9:
         return {"pow": [gen_expr(r, depth - 1, frees, meas, scale), 2]}
-    return {"fn": r.choice(FNS), "a": gen_expr(r, depth - 1, frees, meas, scale)}
+    fn = r.choice(FNS)
+    arg = gen_expr(r, depth - 1, frees, meas, scale)
+    if fn in ("exp", "sinh", "cosh"):
+        # keep magnitudes moderate: a symbolic engine may legally re-associate products of exponentials, and for huge values the
+        # rounding of the two evaluation orders differs by more than any sensible tolerance on an angle
+        arg = {"fn": "tanh", "a": arg}
+    return {"fn": fn, "a": arg}
 
 
 def bounded(e, bound):
